@@ -75,9 +75,12 @@ def gen(seed, tier="quick"):
         unannotated = r.random() < 0.2  # nothing for the typechecker to do: the context must exist all the same
         if unannotated:
             params = [[f"x{j}", None] for j in range(r.randrange(0, 2))]
+        defaults = {}
         if r.random() < 0.5:
             params.append(["k", None])
-        fns[f"F{i}"] = {"style": style, "tc": r.choice(("tg", "tg", "bt", "min")), "kind": kind, "params": params,
+            if r.random() < 0.4 and kind != "dc":
+                defaults["k"] = r.randrange(1, 5)  # the callee must see its DEFAULT in {k} when the caller omits it
+        fns[f"F{i}"] = {"style": style, "tc": r.choice(("tg", "tg", "bt", "min")), "kind": kind, "params": params, "defaults": defaults,
                         "ret": r.choice(arrs) if (kind not in ("dc", "gen", "coro") and not unannotated and r.random() < 0.6) else None}
     ctr = [0]
     prog = _block(r, g, arrs, fns, _pref(r), 0, r.randrange(3, 8), None, ctr)
@@ -99,7 +102,10 @@ def _args_for(r, g, f, pref, p_bad):
     args = []
     for name, aref in f["params"]:
         if aref is None:
-            args.append({"t": "int", "v": pref["k"] if name == "k" else 7})
+            if name == "k" and "k" in f.get("defaults", {}) and pref.get("_omit_k"):
+                args.append({"t": "omit"})
+            else:
+                args.append({"t": "int", "v": pref["k"] if name == "k" else 7})
         else:
             args.append(g.arr_val(aref, pref, p_bad=p_bad))
             if args[-1]["t"] == "str":
@@ -129,6 +135,9 @@ def _block(r, g, arrs, fns, pref, depth, n, kparam, ctr):
             f = fns[fid]
             np_ = dict(_pref(r), k=r.randrange(1, 5))
             has_k = any(p[0] == "k" for p in f["params"])
+            if "k" in f.get("defaults", {}) and r.random() < 0.6:
+                np_["_omit_k"] = True
+                np_["k"] = f["defaults"]["k"]
             if f["kind"] in ("gen", "coro"):
                 ctr[0] += 1
                 var = f"g{ctr[0]}"
